@@ -8,6 +8,7 @@ from fontTools.designspaceLib.split import splitInterpolable, splitVariableFonts
 from fontTools.misc.loggingTools import Timer
 from fontTools.otlLib.optimize.gpos import COMPRESSION_LEVEL as GPOS_COMPRESSION_LEVEL
 
+from ufo2ft import _verif
 from ufo2ft.constants import MTI_FEATURES_PREFIX
 from ufo2ft.errors import InvalidDesignSpaceData
 from ufo2ft.featureCompiler import (
@@ -58,13 +59,17 @@ class BaseCompiler:
     def compile(self, ufo):
         with self.timer("preprocess UFO"):
             glyphSet = self.preprocess(ufo)
+        _verif.emit("Preprocessed", compiler=self, font=ufo, glyphSet=glyphSet)
         with self.timer("compile a basic TTF"):
             self.logger.info("Building OpenType tables")
             font = self.compileOutlines(ufo, glyphSet)
+        _verif.emit("Outlines", compiler=self, font=ufo, glyphSet=glyphSet, otf=font)
         if self.layerName is None and not self.skipFeatureCompilation:
             self.compileFeatures(ufo, font, glyphSet=glyphSet)
+            _verif.emit("Features", compiler=self, font=ufo, glyphSet=glyphSet, otf=font)
         with self.timer("postprocess TTF"):
             font = self.postprocess(font, ufo, glyphSet)
+        _verif.emit("Postprocessed", compiler=self, font=ufo, glyphSet=glyphSet, otf=font)
         return font
 
     def preprocess(self, ufo_or_ufos):
@@ -192,6 +197,7 @@ class BaseInterpolatableCompiler(BaseCompiler):
             self.layerNames = [None] * len(ufos)
         assert len(ufos) == len(self.layerNames)
         self.glyphSets = self.preprocess(ufos)
+        _verif.emit("IPreprocessed", compiler=self, fonts=ufos, glyphSets=self.glyphSets)
 
         default_idx = (
             self.instantiator.default_source_idx if self.instantiator else None
@@ -211,6 +217,9 @@ class BaseInterpolatableCompiler(BaseCompiler):
             self.logger.info("Building OpenType tables for %s", fontName)
 
         ttf = self.compileOutlines(ufo, glyphSet, layerName)
+        _verif.emit(
+            "Outlines", compiler=self, font=ufo, glyphSet=glyphSet, otf=ttf, layerName=layerName
+        )
 
         # Only the default layer is likely to have all glyphs used in feature
         # code.
@@ -218,8 +227,10 @@ class BaseInterpolatableCompiler(BaseCompiler):
             if self.debugFeatureFile:
                 self.debugFeatureFile.write("\n### %s ###\n" % fontName)
             self.compileFeatures(ufo, ttf, glyphSet=glyphSet)
+            _verif.emit("Features", compiler=self, font=ufo, glyphSet=glyphSet, otf=ttf)
 
         ttf = self.postprocess(ttf, ufo, glyphSet)
+        _verif.emit("Postprocessed", compiler=self, font=ufo, glyphSet=glyphSet, otf=ttf)
 
         if layerName is not None and "post" in ttf:
             # for sparse masters (i.e. containing only a subset of the glyphs), we
@@ -346,6 +357,7 @@ class BaseInterpolatableCompiler(BaseCompiler):
             self.skipFeatureCompilation,
             can_optimize_features,
         )
+        _verif.emit("OptsSaved", compiler=self, designspace=designSpaceDoc)
         try:
             # Compile all needed sources in each interpolable subspace to make sure
             # they're all compatible; that also ensures that sub-vfs within the same
@@ -380,6 +392,7 @@ class BaseInterpolatableCompiler(BaseCompiler):
             self.postProcessorClass = save_postprocessor
             self.useProductionNames = save_production_names
             self.skipFeatureCompilation = save_skip_features
+            _verif.emit("OptsRestored", compiler=self, designspace=designSpaceDoc)
 
         return (
             vfNameToBaseUfo,
@@ -418,10 +431,14 @@ class BaseInterpolatableCompiler(BaseCompiler):
 
         with self.timer("merge fonts to variable"):
             vfNameToTTFont = self._merge(designSpaceDoc, excludeVariationTables)
+        _verif.emit("Merged", compiler=self, designspace=designSpaceDoc, fonts=vfNameToTTFont)
 
         if buildVariableFeatures:
             self.compile_all_variable_features(
                 designSpaceDoc, vfNameToTTFont, originalSources, originalGlyphsets
+            )
+            _verif.emit(
+                "VarFeatures", compiler=self, designspace=designSpaceDoc, fonts=vfNameToTTFont
             )
         for vfName, varfont in list(vfNameToTTFont.items()):
             ufo, info = vfNameToBaseUfo[vfName]
